@@ -12,7 +12,8 @@ import AdaptaVerif.Lemmas.VpscLoop
 namespace AdaptaVerif.Lemmas.VpscStatic
 open AdaptaVerif.Model.Vpsc AdaptaVerif.Model.VpscStatic
 open AdaptaVerif.Lemmas.VpscInv AdaptaVerif.Lemmas.VpscMerge AdaptaVerif.Lemmas.VpscSplit
-open AdaptaVerif.Lemmas.VpscLoop
+open AdaptaVerif.Lemmas.VpscLoop AdaptaVerif.Lemmas.VpscTraverse
+open AdaptaVerif.Model.PairingHeap (PTree findMin link)
 
 /-- the block invariant on a state of the static solver: `InvC` with "every constraint" as the list of
     constraints that may be inactive (the static solver keeps no such list) -/
@@ -101,6 +102,114 @@ theorem internal_false (st : St) (c : Nat) (h : internal st c = false) :
   unfold internal blkOf at h
   simpa [blk] using h
 
+/-! ### the root of a repaired heap is never an internal constraint -/
+
+theorem findMin_link {lt : Nat → Nat → Bool} (a b : PTree Nat) (x : Nat × Nat)
+    (h : findMin (link lt a b) = some x) : findMin a = some x ∨ findMin b = some x := by
+  cases a with
+  | nil => cases b <;> simp_all [link]
+  | node ka ia ca sa =>
+    cases b with
+    | nil => left; simpa [link] using h
+    | node kb ib cb sb =>
+      simp only [link] at h
+      split at h
+      · right; simpa [findMin] using h
+      · left; simpa [findMin] using h
+
+theorem findMin_insert {lt : Nat → Nat → Bool} (h : PTree Nat) (k i : Nat) (x : Nat × Nat)
+    (hx : findMin (AdaptaVerif.Model.PairingHeap.insert lt h k i) = some x) : x = (k, i) ∨ findMin h = some x := by
+  unfold AdaptaVerif.Model.PairingHeap.insert at hx
+  split at hx
+  · left; simpa [findMin] using hx.symm
+  · rcases findMin_link _ _ x hx with h1 | h1
+    · right; exact h1
+    · left; simpa [findMin] using h1.symm
+
+/-- "the root, if any, is not internal" -/
+def RootExt (st : St) (h : Heap) : Prop := ∀ x, findMin h = some x → internal st x.1 = false
+
+theorem rootExt_nil (st : St) : RootExt st .nil := fun x hx => by simp [findMin] at hx
+
+theorem findMinOutLoop_root (st : St) : ∀ (fuel : Nat) (hs : HS) (h : Heap),
+    RootExt st (findMinOutLoop st fuel hs h).2
+  | 0, _, _ => rootExt_nil st
+  | fuel + 1, hs, h => by
+    unfold findMinOutLoop
+    split
+    · rename_i hn
+      intro x hx
+      rw [hn] at hx; cases hx
+    · rename_i v i hv
+      split
+      · exact findMinOutLoop_root st fuel _ _
+      · rename_i hi
+        intro x hx
+        rw [hv] at hx
+        cases hx
+        simpa using hi
+
+theorem findMinOut_ext (st : St) (hs : HS) (b c : Nat) (h : (findMinOut st hs b).2 = some c) :
+    internal st c = false := by
+  unfold findMinOut at h
+  simp only [Option.map_eq_some_iff] at h
+  obtain ⟨x, hx, rfl⟩ := h
+  exact findMinOutLoop_root st _ _ _ x hx
+
+theorem findMinInLoop_root (st : St) : ∀ (fuel : Nat) (hs : HS) (h : Heap) (ood : List Nat),
+    (∀ v ∈ ood, internal st v = false) →
+    RootExt st (findMinInLoop st fuel hs h ood).2.1 ∧
+    ∀ v ∈ (findMinInLoop st fuel hs h ood).2.2, internal st v = false
+  | 0, _, _, _, _ => ⟨rootExt_nil st, fun v hv => by simp [findMinInLoop] at hv⟩
+  | fuel + 1, hs, h, ood, ho => by
+    unfold findMinInLoop
+    split
+    · rename_i hn
+      exact ⟨fun x hx => (by rw [hn] at hx; cases hx), ho⟩
+    · rename_i v i hv
+      split
+      · exact findMinInLoop_root st fuel _ _ _ ho
+      · rename_i hi
+        split
+        · apply findMinInLoop_root st fuel _ _ _
+          intro w hw
+          simp only [List.mem_append, List.mem_singleton] at hw
+          rcases hw with hw | rfl
+          · exact ho w hw
+          · simpa using hi
+        · refine ⟨fun x hx => ?_, ho⟩
+          rw [hv] at hx
+          cases hx
+          simpa using hi
+
+theorem reinsert_root (st : St) : ∀ (l : List Nat) (acc : HS × Heap),
+    RootExt st acc.2 → (∀ v ∈ l, internal st v = false) → RootExt st (l.foldl (reinsertStep st) acc).2
+  | [], _, h, _ => h
+  | v :: rest, acc, h, hl => by
+    rw [List.foldl_cons]
+    apply reinsert_root st rest
+    · intro x hx
+      unfold reinsertStep at hx
+      simp only at hx
+      rcases findMin_insert _ _ _ x hx with h0 | h1
+      · rw [h0]; exact hl v (by simp)
+      · exact h x h1
+    · intro w hw
+      exact hl w (by simp [hw])
+
+theorem findMinInHeap_ext (st : St) (hs : HS) (h : Heap) (c : Nat)
+    (hc : (findMinInHeap st hs h).2.2 = some c) : internal st c = false := by
+  unfold findMinInHeap at hc
+  simp only [Option.map_eq_some_iff] at hc
+  obtain ⟨x, hx, rfl⟩ := hc
+  have hl := findMinInLoop_root st ((heapElems h).length + 1) (hs.noteKeys st (heapElems h)) h []
+    (fun v hv => by cases hv)
+  exact reinsert_root st _ _ hl.1 hl.2 x hx
+
+theorem findMinIn_ext (st : St) (hs : HS) (b c : Nat) (h : (findMinIn st hs b).2 = some c) :
+    internal st c = false :=
+  findMinInHeap_ext st hs _ c h
+
 /-! ### `Blocks::mergeLeft` -/
 
 theorem mergeLeftStep_st (s : SSt) (r c : Nat) :
@@ -128,13 +237,14 @@ theorem mergeLeftLoop_SJ : ∀ (fuel : Nat) (s : SSt) (r : Nat), SJ s.st → SJ 
     simp only
     split
     · exact h
-    · split
+    · rename_i c hc
+      split
       · split
         · exact h
         · rename_i hg
-          simp only [Bool.or_eq_true, bne_iff_ne, ne_eq, not_or, Bool.not_eq_true, Decidable.not_not] at hg
+          simp only [bne_iff_ne, ne_eq, Decidable.not_not] at hg
           apply mergeLeftLoop_SJ
-          exact mergeLeftStep_SJ _ _ _ h hg.1 hg.2
+          exact mergeLeftStep_SJ _ _ _ h (findMinIn_ext _ _ _ _ hc) hg
       · exact h
 
 theorem mergeLeft_SJ (s : SSt) (r : Nat) (h : SJ s.st) : SJ (mergeLeft s r).st := by
@@ -172,13 +282,14 @@ theorem mergeRightLoop_SJ : ∀ (fuel : Nat) (s : SSt) (l : Nat), SJ s.st → SJ
     simp only
     split
     · exact h
-    · split
+    · rename_i c hc
+      split
       · split
         · exact h
         · rename_i hg
-          simp only [Bool.or_eq_true, bne_iff_ne, ne_eq, not_or, Bool.not_eq_true, Decidable.not_not] at hg
+          simp only [bne_iff_ne, ne_eq, Decidable.not_not] at hg
           apply mergeRightLoop_SJ
-          exact mergeRightStep_SJ _ _ _ h hg.1 hg.2
+          exact mergeRightStep_SJ _ _ _ h (findMinOut_ext _ _ _ _ hc) hg
       · exact h
 
 theorem mergeRight_SJ (s : SSt) (l : Nat) (h : SJ s.st) : SJ (mergeRight s l).st := by
@@ -284,27 +395,142 @@ theorem splitStatic_SJ (s : SSt) (b c : Nat) (h : SJ s.st) (hact : (s.st.cons[c]
   rw [← hb]
   exact split_SJ s.st c h hact
 
+/-- every constraint whose `lm` is assigned by `compute_dfdv` in block `bid` is active and has an end in
+    block `bid` -/
+theorem computeDfdv_post_blk (st : St) (bid : Nat) :
+    ∀ (fuel : Nat) (lm : Array Rat) (post : Array Nat) (v : Nat) (u : Option Nat),
+      (∀ ci ∈ post, (st.cons[ci]!).active = true ∧
+        (blk st.vars (st.cons[ci]!).r = bid ∨ blk st.vars (st.cons[ci]!).l = bid)) →
+      ∀ ci ∈ (computeDfdv st bid fuel lm post v u).2.1, (st.cons[ci]!).active = true ∧
+        (blk st.vars (st.cons[ci]!).r = bid ∨ blk st.vars (st.cons[ci]!).l = bid) := by
+  intro fuel
+  induction fuel with
+  | zero => intro lm post v u h; simpa [computeDfdv] using h
+  | succ fuel ih =>
+    intro lm post v u h
+    unfold computeDfdv
+    simp only
+    apply Array.foldl_induction
+      (motive := fun _ (acc : Array Rat × Array Nat × Rat × Bool) => ∀ ci ∈ acc.2.1,
+        (st.cons[ci]!).active = true ∧
+        (blk st.vars (st.cons[ci]!).r = bid ∨ blk st.vars (st.cons[ci]!).l = bid))
+    · apply Array.foldl_induction
+        (motive := fun _ (acc : Array Rat × Array Nat × Rat × Bool) => ∀ ci ∈ acc.2.1,
+          (st.cons[ci]!).active = true ∧
+          (blk st.vars (st.cons[ci]!).r = bid ∨ blk st.vars (st.cons[ci]!).l = bid))
+      · exact h
+      · intro i acc hm
+        split
+        · rename_i hcf
+          intro ci hci
+          rcases Array.mem_push.1 hci with hci | rfl
+          · exact ih _ _ _ _ hm ci hci
+          · simp only [canFollowRight, Bool.and_eq_true, beq_iff_eq] at hcf
+            exact ⟨hcf.1.2, Or.inl hcf.1.1⟩
+        · exact hm
+    · intro i acc hm
+      split
+      · rename_i hcf
+        intro ci hci
+        rcases Array.mem_push.1 hci with hci | rfl
+        · exact ih _ _ _ _ hm ci hci
+        · simp only [canFollowLeft, Bool.and_eq_true, beq_iff_eq] at hcf
+          exact ⟨hcf.1.2, Or.inr hcf.1.1⟩
+      · exact hm
+
+/-- `Block::findMinLM` of block `bid` returns a constraint of block `bid` -/
+theorem findMinLM_blk (st : St) (bid : Nat) {n : Nat} {ia : Array Nat} (h : InvC st.vars st.cons n ia)
+    (ci : Nat) (lmv gap : Rat) (hr : (st.findMinLM bid).2 = some (ci, lmv, gap)) :
+    blk st.vars (st.cons[ci]!).l = bid := by
+  unfold St.findMinLM at hr
+  simp only at hr
+  have hm := argMinFirst_mem _ _ _ _ hr
+  simp only [Array.mem_map, Array.mem_filter] at hm
+  obtain ⟨cj, ⟨hcj, _⟩, heq⟩ := hm
+  simp only [Prod.mk.injEq] at heq
+  obtain ⟨rfl, _⟩ := heq
+  have hempty : ∀ ci ∈ (#[] : Array Nat), (st.cons[ci]!).active = true ∧
+      (blk st.vars (st.cons[ci]!).r = bid ∨ blk st.vars (st.cons[ci]!).l = bid) :=
+    fun ci hh => absurd hh (Array.not_mem_empty ci)
+  obtain ⟨ha, hb⟩ := computeDfdv_post_blk st bid (st.vars.size + 1) st.lm #[] _ none hempty cj hcj
+  rcases hb with hb | hb
+  · rw [(h.tight cj (active_lt _ _ ha) ha).1]; exact hb
+  · exact hb
+
+/-- once a traversal has run out of fuel every later state keeps the flag -/
+theorem mergeDir_fuel (st : St) (ci dst src : Nat) (d : Rat) : (mergeDir st ci dst src d).fuelOut = st.fuelOut :=
+  (mergeDir_core st ci dst src d).2.2.2
+
+theorem mergeLeftLoop_fuel : ∀ (fuel : Nat) (s : SSt) (r : Nat), s.st.fuelOut = true →
+    (mergeLeftLoop fuel s r).st.fuelOut = true
+  | 0, _, _, h => h
+  | fuel + 1, s, r, h => by
+    unfold mergeLeftLoop
+    simp only
+    split
+    · exact h
+    · split
+      · split
+        · exact h
+        · apply mergeLeftLoop_fuel
+          rw [mergeLeftStep_st, mergeDir_fuel]; exact h
+      · exact h
+
+theorem mergeRightLoop_fuel : ∀ (fuel : Nat) (s : SSt) (l : Nat), s.st.fuelOut = true →
+    (mergeRightLoop fuel s l).st.fuelOut = true
+  | 0, _, _, h => h
+  | fuel + 1, s, l, h => by
+    unfold mergeRightLoop
+    simp only
+    split
+    · exact h
+    · split
+      · split
+        · exact h
+        · apply mergeRightLoop_fuel
+          rw [mergeRightStep_st, mergeDir_fuel]; exact h
+      · exact h
+
+theorem splitStatic_fuel (s : SSt) (b c : Nat) (h : s.st.fuelOut = true) :
+    (splitStatic s b c).st.fuelOut = true := by
+  rw [splitStatic_st]
+  simp only [St.markDeleted]
+  unfold mergeRight
+  apply mergeRightLoop_fuel
+  rw [splitMid_st]
+  rw [(refreshBlock_core _ _).2.2.2.2]
+  unfold mergeLeft
+  apply mergeLeftLoop_fuel
+  rw [splitPre_st]
+  simp only [setPosn, St.insertBlocks]
+  exact split_fuel_true _ _ _ h
+
 /-! ### `Solver::refine` -/
 
 theorem refineSetUp_st (s : SSt) : (refineSetUp s).st = s.st := rfl
 
 theorem refineTry_SJ (s : SSt) (b : Nat) (h : SJ s.st) : SJ (refineTry s b).1.st := by
   have h1 := findMinLM_SJ s.st b h
-  obtain ⟨_, hc, _, _, _, hact⟩ := findMinLM_spec s.st b
+  obtain ⟨hv, hc, _, _, hfo, hact⟩ := findMinLM_spec s.st b
   unfold refineTry
   simp only
   split
   · exact h1
   · rename_i ci lmv gap heq
     split
-    · split
-      · exact h1
-      · rename_i hg
-        have hg' : blkOf (s.st.findMinLM b).1 ((s.st.findMinLM b).1.cons[ci]!).l = b := by
-          simpa using hg
-        have ha : ((s.st.findMinLM b).1.cons[ci]!).active = true := by
-          rw [hc]; exact hact ci lmv gap heq
-        exact SJ.of_same (same_cleanup _) (splitStatic_SJ _ _ _ h1 ha hg')
+    · have ha : ((s.st.findMinLM b).1.cons[ci]!).active = true := by
+        rw [hc]; exact hact ci lmv gap heq
+      apply SJ.of_same (same_cleanup _)
+      rcases h1 with hf | hi
+      · -- a traversal already ran out of fuel: every later state keeps the flag
+        exact Or.inl (splitStatic_fuel _ _ _ hf)
+      · have hblk : blkOf (s.st.findMinLM b).1 ((s.st.findMinLM b).1.cons[ci]!).l = b := by
+          have hic : InvC s.st.vars s.st.cons (s.st.findMinLM b).1.blocks.size
+              (Array.range (s.st.findMinLM b).1.cons.size) := by
+            have := hi; unfold IC at this; rw [hv, hc] at this; rw [hc]; exact this
+          have := findMinLM_blk s.st b hic ci lmv gap heq
+          unfold blkOf; rw [hv, hc]; exact this
+        exact splitStatic_SJ _ _ _ (Or.inr hi) ha hblk
     · exact h1
 
 theorem refineScan_SJ : ∀ (l : List Nat) (s : SSt), SJ s.st → SJ (refineScan s l).1.st
